@@ -1,6 +1,6 @@
 /-
   C16 — property theorems (and non-vacuity examples) ONLY.  Helper lemmas: `Lemmas.lean`,
-  `Columns.lean`, `Ops.lean`, `Refine.lean`, `Steps.lean`, `ReadOnly.lean`, `RoSteps.lean`.
+  `Columns.lean`, `Ops.lean`, `Refine.lean`, `Steps.lean`, `ReadOnly.lean`, `RoSteps.lean`, `Lifetime.lean`.
 
   Property text: "For every history of assignments, temporary assignments, function calls and
   returns, local declarations, exports, read-only marks and unsets, looking up a variable returns
@@ -14,7 +14,7 @@
   former into the latter.  All theorems are for every normalised set / every history, any number of
   contexts and names.
 -/
-import YashModel.Variable.RoSteps
+import YashModel.Variable.Lifetime
 namespace YashModel.Variable
 
 /-! ### the normal form is an invariant -/
@@ -131,10 +131,6 @@ theorem step_refines (s : VariableSet) (h : Norm s) (op : Op) :
     abs (s.step op).1 = ((abs s).step op).1 ∧ (s.step op).2 = ((abs s).step op).2 :=
   ⟨(step_abs h op).1, (step_abs h op).2.1⟩
 
-def SSet.run (X : SSet) : List Op → SSet
-  | [] => X
-  | op :: ops => SSet.run (X.step op).1 ops
-
 /-- ★ every history, of any length: the Rust structure and the stack of maps stay in step -/
 theorem run_refines (ops : List Op) : abs (VariableSet.new.run ops) = SSet.run SSet.new ops := by
   have h0 : abs VariableSet.new = SSet.new := by
@@ -229,6 +225,77 @@ theorem spec_unset_touching_readonly_fails (X : SSet) (n : Name) (k j : Nat) (c 
           by_cases hw : w.isReadOnly = true
           · simp only [hw, if_true]; exact hw
           · simp only [hw]; exact this
+
+/-! ### lifetime of temporary assignments, locals and positional parameters (Exec level)
+
+  Commands are compiled to operations by `Exec.lean` (the scope choice of `perform_assignments` and
+  the contexts pushed by `execute_builtin` / `execute_function` / `execute_external_utility`). -/
+
+/-- ★ `temporary_assignment_lifetime` (regular built-in, external utility, command not found):
+    assignments prefixed to such a command live in a volatile context and do not outlive it —
+    whatever the command does through `Volatile`-scope accesses, afterwards the whole variable set
+    is what it was before: every variable (visible or hidden), the environment, the positional
+    parameters -/
+theorem temporary_assignment_lifetime (s : VariableSet) (h : Norm s) (as : List (Name × Value))
+    (body : List Op) (hb : ∀ op ∈ body, isTopVolOp op = true) :
+    abs (s.run (regularCmd as body)) = abs s ∧
+    (∀ n, (s.run (regularCmd as body)).get n = s.get n) ∧
+    (∀ names, (s.run (regularCmd as body)).env names = s.env names) := by
+  obtain ⟨ha, hN⟩ := run_abs_from h (regularCmd as body)
+  have he : abs (s.run (regularCmd as body)) = abs s := by
+    rw [ha]; exact spec_regularCmd _ (abs_ne_nil h) as body hb
+  exact ⟨he, fun n => by rw [get_abs hN, get_abs h, he],
+    fun names => by rw [env_refines _ hN, env_refines _ h, he]⟩
+
+/-- ★ `temporary_assignment_lifetime` (function call): the assignments prefixed to the call, the
+    locals declared in the body (`typeset`), local unsets and the function's positional parameters
+    (`set --` included) all vanish at return -/
+theorem function_call_lifetime (s : VariableSet) (h : Norm s) (as : List (Name × Value))
+    (ps : List String) (body : List Op) (hb : ∀ op ∈ body, isTopRegOp op = true) :
+    abs (s.run (functionCmd as ps body)) = abs s ∧
+    (∀ n, (s.run (functionCmd as ps body)).get n = s.get n) ∧
+    (s.run (functionCmd as ps body)).positionalParams = s.positionalParams := by
+  obtain ⟨ha, hN⟩ := run_abs_from h (functionCmd as ps body)
+  have he : abs (s.run (functionCmd as ps body)) = abs s := by
+    rw [ha]; exact spec_functionCmd _ (abs_ne_nil h) as ps body hb
+  exact ⟨he, fun n => by rw [get_abs hN, get_abs h, he],
+    by rw [positionalParams_abs, positionalParams_abs s, he]⟩
+
+/-- ★ `temporary_assignment_lifetime` (special built-in / assignment-only command): the assignment
+    is made at `Global` scope in the current contexts, no context is popped afterwards, and the
+    variable is visible with the new value (unless it is read-only, in which case it is unchanged) -/
+theorem special_assignment_persists (s : VariableSet) (h : Norm s) (n : Name) (v : Value) (loc : Option Nat) :
+    ∃ u, (s.step (.assign n .global v loc)).1.get n = some u ∧
+      (u.isReadOnly = false → u.value = some v) := by
+  obtain ⟨u, hu, hv⟩ := spec_special_persists (abs s) (baseReg_abs h) n v loc
+  refine ⟨u, ?_, hv⟩
+  rw [get_abs (step_abs h _).2.2, (step_abs h _).1]; exact hu
+
+/-- ★ `temporary_assignment_lifetime` (globals assigned inside a function persist): a `Global`-scope
+    assignment executed in a function body — even to a variable that also has a temporary
+    assignment prefixed to the call — is visible with the new value after the function returned -/
+theorem function_global_assignment_persists (s : VariableSet) (h : Norm s) (as : List (Name × Value))
+    (ps : List String) (n : Name) (v : Value) (loc : Option Nat) :
+    ∃ u, (s.run (functionCmd as ps [.assign n .global v loc])).get n = some u ∧
+      (u.isReadOnly = false → u.value = some v) := by
+  obtain ⟨ha, hN⟩ := run_abs_from h (functionCmd as ps [.assign n .global v loc])
+  obtain ⟨u, hu, hv⟩ := spec_function_global_persists (abs s) (baseReg_abs h) as ps n v loc
+  exact ⟨u, by rw [get_abs hN, ha]; exact hu, hv⟩
+
+/-- non-vacuity: inside the command the temporary assignment *is* visible and exported; after a
+    regular command it is gone, after a special one it stays; a function's local and positional
+    parameters vanish while its global assignment stays (and, having passed through the exported
+    temporary variable, stays exported) -/
+def lt0 : VariableSet := VariableSet.new.run [.assign "x" .global (.scalar "1") none]
+
+example : (lt0.run ([Op.push .volatile] ++ tempOps [("x", .scalar "T")])).env ["x"] = [("x", "T")] := by decide
+example : (lt0.run (regularCmd [("x", .scalar "T")] [])).get "x" = some { value := some (.scalar "1") } := by decide
+example : ((lt0.run (specialCmd [("x", .scalar "T")] [])).get "x").map (·.value) = some (some (.scalar "T")) := by
+  decide
+example : (lt0.run (functionCmd [("x", .scalar "T")] ["a"]
+    [.assign "y" .loc (.scalar "5") none, .setParams ["b", "c"]])).get "y" = none := by decide
+example : (lt0.run (functionCmd [("x", .scalar "T")] ["a"] [.assign "x" .global (.scalar "3") none])).get "x"
+    = some { value := some (.scalar "3"), exported := true } := by decide
 
 /-! ### non-vacuity: a set with a hidden global, a local and a temporary variable -/
 
